@@ -103,7 +103,8 @@ Qed.
 Theorem f_move_assign_transfers r t s s' : Good cfg s -> dom_op0 (s_arrs s) (ZAssignMove r t) ->
   step0 cfg (ZAssignMove r t) (reset_counts s) = Ok tt s' ->
   vget (abs_state s') r = vget (abs_state s) t /\ s_copies s' = 0 /\ Good cfg s' /\
-  (forall q, q <> r -> nth_error (abs_state s') q = nth_error (abs_state s) q) /\ length (s_blocks s') = length (s_blocks s).
+  (forall q, q <> r -> nth_error (abs_state s') q = nth_error (abs_state s) q) /\
+  (c_pocma cfg = false -> length (s_blocks s') = length (s_blocks s)).
 Proof.
   intros G D H. destruct (move_assign_transfers0 (rk1 cfg) R r t s s') as (A & B & C & E & F); auto.
   - apply Good_rk1; auto. - apply step0_to_rk1; auto.
